@@ -820,3 +820,481 @@ def run(ctx) -> None:  # noqa: F811
               "sentinel is appended to the element budget as -1, the product with the other dimensions is negative or "
               "too small and the 'auto' dimensions grow beyond max_elements", key_detail="sentinel")
     _inner_run_c18b(ctx)
+
+
+# ---- added after the mutation sweep (sweepH-b): one entry per dimension, the length guard, pairing of shape with
+# ---- chunks, block bound of an integer chunk size, integrity of the limit, every batch yielded
+_inner_run_c18_sweep = run
+LENGUARD = "check_chunks_match_shape_length"
+
+
+def _contribution(st: ast.AST) -> Optional[tuple[str, int]]:
+    """(accumulator name, number of items added) for `acc.append(x)`, `acc += (x,)`, `acc = acc + (x,)`;
+    (name, -1) for any other statement that changes a list/tuple accumulator in a way not understood."""
+    if isinstance(st, ast.Expr) and isinstance(st.value, ast.Call) and isinstance(st.value.func, ast.Attribute) \
+            and isinstance(st.value.func.value, ast.Name):
+        a = st.value.func.attr
+        if a == "append" and len(st.value.args) == 1:
+            return st.value.func.value.id, 1
+        if a in ("extend", "insert", "pop", "remove", "clear"):
+            return st.value.func.value.id, -1
+    seq = None
+    if isinstance(st, ast.AugAssign) and isinstance(st.op, ast.Add) and isinstance(st.target, ast.Name):
+        seq, name = st.value, st.target.id
+    elif isinstance(st, ast.Assign) and len(st.targets) == 1 and isinstance(st.targets[0], ast.Name) and isinstance(
+            st.value, ast.BinOp) and isinstance(st.value.op, ast.Add):
+        name = st.targets[0].id
+        if isinstance(st.value.left, ast.Name) and st.value.left.id == name:
+            seq = st.value.right
+        elif isinstance(st.value.right, ast.Name) and st.value.right.id == name:
+            seq = st.value.left
+    if seq is not None and isinstance(seq, (ast.Tuple, ast.List)) and not any(isinstance(e, ast.Starred) for e in seq.elts):
+        return name, len(seq.elts)
+    return None
+
+
+def _once_per_iteration(ctx, rule: str, f: FuncInfo, df: DataFlow, loop: ast.For, what: str) -> int:
+    """Every accumulator that receives entries inside `loop` receives exactly one on every path through one
+    iteration that returns to the loop header (raising paths excluded; leaving the loop early is not understood)."""
+    cfg = df.cfg
+    header = cfg.node_of(loop).idx
+    body = cfg.loop_body_nodes(header)
+    accs: dict[str, list[int]] = {}
+    for i in sorted(body):
+        n = cfg.nodes[i]
+        if n.kind != "stmt":
+            continue
+        c = _contribution(n.ast)
+        if c is not None:
+            if c[1] != 1:
+                raise AnalysisError(f"{f.qualname}: `{norm_text(n.ast)[:60]}` adds {c[1] if c[1] >= 0 else 'an unknown number of'} "
+                                    f"entries to `{c[0]}` in one step")
+            accs.setdefault(c[0], []).append(i)
+        if isinstance(n.ast, (ast.Break, ast.Return)) or (n.kind == "stmt" and any(
+                s not in body and s != header and s != cfg.rexit for s in n.succ)):
+            raise AnalysisError(f"{f.qualname}: the {what} loop is left early by `{norm_text(n.ast)[:40]}`")
+    n_acc = 0
+    for acc, sites in sorted(accs.items(), key=lambda kv: min(kv[1])):
+        # a sequence (re)created inside the iteration is a temporary of that iteration, not a per-dimension result
+        if any(d.var == acc and d.strong and d.node in body and d.kind == "assign" and not _contribution(cfg.nodes[d.node].ast)
+               for d in df.defs):
+            continue
+        # nested accumulators of an inner loop are not per-iteration entries of this one
+        if any(len(cfg.nodes[i].loops) != len(cfg.nodes[header].loops) + 1 for i in sites):
+            raise AnalysisError(f"{f.qualname}: `{acc}` is extended inside a nested loop")
+
+        def transfer(node, state, label, succ, _sites=set(sites)):
+            if node.idx == header:
+                return 0 if succ in body else state
+            if node.idx in _sites:
+                return min(state + 1, 2)
+            return state
+
+        at = forward_states(cfg, 0, transfer)
+        counts = set()
+        for i in body:
+            if header in cfg.nodes[i].succ:
+                for st in at[i]:
+                    counts.add(transfer(cfg.nodes[i], st, cfg.elabel.get((i, header)), header))
+        ctx.require(bool(counts), f"{f.qualname}: the {what} loop has no back edge")
+        bad = sorted(c for c in counts if c != 1)
+        n_acc += 1
+        ctx.check(not bad, rule, f"{f.qualname}:{what}:entries of sequence #{n_acc}", f.loc(loop),
+                  f"every iteration that does not raise adds exactly one entry to `{acc}` ({len(sites)} sites)",
+                  f"an iteration of the {what} loop can add {' or '.join(str(b) if b < 2 else '2+' for b in bad)} entries to "
+                  f"`{acc}`: the result no longer has one entry per dimension (and zip() in the sum guard silently "
+                  "truncates to the shorter sequence)", key_detail="once")
+    return n_acc
+
+
+def _per_dimension(ctx, repo) -> None:
+    f = repo.function(MOD, "fill_in_chunk_sizes")
+    df = DataFlow(f.node)
+    n = 0
+    for loop in [st for st in walk_no_nested(f.node) if isinstance(st, ast.For)]:
+        n += _once_per_iteration(ctx, "R-PERDIM", f, df, loop, "fill")
+    ctx.require(n >= 1, f"{f.qualname}: no per-dimension accumulator found")
+    g = repo.function(MOD, "_auto_chunks")
+    dg = DataFlow(g.node)
+    n = 0
+    for k, loop in enumerate(st for st in walk_no_nested(g.node) if isinstance(st, ast.For)):
+        has = any(_contribution(s) for s in walk_no_nested(loop))
+        if has:
+            kind = "budget" if any(isinstance(c, ast.Call) and call_name(c) == "isinstance" for c in ast.walk(loop)) else "assembly"
+            n += _once_per_iteration(ctx, "R-PERDIM", g, dg, loop, kind)
+    ctx.require(n >= 3, f"{g.qualname}: budget lists / assembled chunks not found ({n} accumulators)")
+
+
+def _length_guard(ctx, repo) -> None:
+    g = repo.function(MOD, LENGUARD)
+    p_shape, p_chunks = g.positional_params[:2]
+    ifs = [st for st in walk_no_nested(g.node) if isinstance(st, ast.If) and any(isinstance(x, ast.Raise) for x in st.body)]
+    ctx.require(len(ifs) == 1 and not ifs[0].orelse, f"{g.qualname}: expected one `if ...: raise`")
+    conj = ifs[0].test.values if isinstance(ifs[0].test, ast.BoolOp) and isinstance(ifs[0].test.op, ast.And) else [ifs[0].test]
+    verdict, restricted = None, []
+    for t in conj:
+        neg = False
+        while isinstance(t, ast.UnaryOp) and isinstance(t.op, ast.Not):
+            t, neg = t.operand, not neg
+        if isinstance(t, ast.Compare) and len(t.ops) == 1 and isinstance(t.ops[0], (ast.Eq, ast.NotEq)):
+            sides = []
+            for s_ in (t.left, t.comparators[0]):
+                sides.append(dotted(s_.args[0]) if isinstance(s_, ast.Call) and call_name(s_) == "len" and len(s_.args) == 1 else None)
+            ctx.require(None not in sides, f"{g.qualname}: cannot read `{norm_text(t)[:60]}`")
+            verdict = sorted(sides) == sorted([p_shape, p_chunks]) and (isinstance(t.ops[0], ast.NotEq) != neg)
+        elif isinstance(t, ast.Call) and call_name(t) == "isinstance" and len(t.args) == 2 and not neg:
+            restricted.append((dotted(t.args[0]), dotted(t.args[1])))
+        else:
+            raise AnalysisError(f"{g.qualname}: cannot read the condition `{norm_text(t)[:60]}`")
+    ctx.require(verdict is not None, f"{g.qualname}: no comparison of the two lengths found")
+    good = verdict and all(r == (p_chunks, "tuple") for r in restricted)
+    ctx.check(good, "R-LENGUARD", f"{g.qualname}:semantics", g.loc(ifs[0]),
+              f"raises iff {p_chunks} is a tuple and len({p_chunks}) != len({p_shape})",
+              f"`{norm_text(ifs[0].test)[:90]}` does not raise exactly for a tuple of chunks whose length differs from the "
+              "number of dimensions", key_detail="semantics")
+
+    vc = repo.function(MOD, "validate_chunks")
+    v_shape, v_chunks = vc.positional_params[:2]
+    df = DataFlow(vc.node)
+    cfg = df.cfg
+    guards = []
+    for n in cfg.nodes:
+        if n.kind == "stmt" and isinstance(n.ast, ast.Expr) and isinstance(n.ast.value, ast.Call) and call_name(n.ast.value) == LENGUARD:
+            c = n.ast.value
+            b = {p: a for p, a in zip(g.positional_params, c.args)}
+            b.update({k.arg: k.value for k in c.keywords if k.arg})
+            a_s, a_c = b.get(p_shape), b.get(p_chunks)
+            fresh = all(d.kind == "param" for v in (v_shape, v_chunks) for d in df.reaching(n.idx, v))
+            if isinstance(a_s, ast.Name) and isinstance(a_c, ast.Name) and a_s.id == v_shape and a_c.id == v_chunks and fresh:
+                guards.append(n)
+    rets = [n for n in cfg.nodes if n.kind == "stmt" and isinstance(n.ast, ast.Return)]
+    ctx.require(bool(rets), "validate_chunks has no return")
+    for k, r in enumerate(rets):
+        ok = any(cfg.dominates(gn.idx, r.idx) for gn in guards)
+        ctx.check(ok, "R-LENGUARD", f"{vc.qualname}:return #{k}", vc.loc(r.ast),
+                  f"{LENGUARD}({v_shape}, {v_chunks}) is executed on the caller's arguments before every return",
+                  f"a return of validate_chunks is reached without {LENGUARD}({v_shape}, {v_chunks}) on the caller's "
+                  "arguments: the sum guard pairs shape with chunks through zip(), so a chunks tuple with fewer (or more) "
+                  "entries than dimensions is returned as validated", key_detail="dominates")
+
+
+def _is_sentinel_test(t: ast.AST, var: str) -> Optional[bool]:
+    """True: `t` holds iff var is the sentinel; False: iff it is not; None: not a sentinel test of var."""
+    if not (isinstance(t, ast.Compare) and len(t.ops) == 1):
+        return None
+    a, b, op = t.left, t.comparators[0], t.ops[0]
+
+    def const(e):
+        if isinstance(e, ast.Constant) and isinstance(e.value, int) and not isinstance(e.value, bool):
+            return e.value
+        if isinstance(e, ast.UnaryOp) and isinstance(e.op, ast.USub) and isinstance(e.operand, ast.Constant) and isinstance(e.operand.value, int):
+            return -e.operand.value
+        return None
+    flip = {ast.Lt: ast.Gt, ast.Gt: ast.Lt, ast.LtE: ast.GtE, ast.GtE: ast.LtE, ast.Eq: ast.Eq, ast.NotEq: ast.NotEq}
+    if isinstance(b, ast.Name) and b.id == var and const(a) is not None:
+        a, b, op = b, a, flip[type(op)]()
+    if not (isinstance(a, ast.Name) and a.id == var and const(b) is not None):
+        return None
+    c = const(b)
+    table = {(ast.Eq, -1): True, (ast.NotEq, -1): False, (ast.Lt, 0): True, (ast.GtE, 0): False, (ast.LtE, -1): True,
+             (ast.Gt, -1): False}
+    return table.get((type(op), c))
+
+
+def _pairing(ctx, repo) -> None:
+    f = repo.function(MOD, "_auto_chunks")
+    p_shape, p_chunks = f.positional_params[:2]
+    df = DataFlow(f.node)
+    loops = [l for l in walk_no_nested(f.node) if isinstance(l, ast.For) and any(
+        isinstance(c, ast.Call) and call_name(c) == "isinstance" for c in ast.walk(l)) and any(
+        _contribution(s) for s in walk_no_nested(l))]
+    ctx.require(len(loops) == 1, f"{f.qualname}: budget loop not found")
+    loop = loops[0]
+    at = df.cfg.node_of(loop).idx
+    b = bind_loop_target(loop.target, loop.iter)
+
+    def is_param(e, p):
+        return isinstance(e, ast.Name) and e.id == p and all(d.kind == "param" for d in df.reaching(at, p))
+
+    svars = [v for v, src in b.items() if is_param(src, p_shape)]
+    others = [v for v in b if v not in svars]
+    ctx.require(len(svars) <= 1 and len(others) == 1 and len(b) == 2, f"{f.qualname}: budget loop does not iterate (size, chunk) pairs")
+    cvar = others[0]
+    # the chunk sequence: the parameter itself or its sentinel-free copy
+    src, node = b[cvar], at
+    def strip(e):
+        while isinstance(e, ast.Call) and call_name(e) in ("tuple", "list") and len(e.args) == 1 and isinstance(e.args[0], ast.Name):
+            e = e.args[0]
+        return e
+
+    src = strip(src)
+    while isinstance(src, ast.Name) and not (src.id == p_chunks and all(d.kind == "param" for d in df.reaching(node, p_chunks))):
+        d = df.single_def(node, src.id)
+        ctx.require(d is not None and d.kind == "assign" and d.value is not None, f"{f.qualname}: `{src.id}` has no single definition")
+        src, node = strip(d.value), d.node
+    if isinstance(src, ast.Name):
+        ctx.info("R-PAIRING", f"{f.qualname}:sentinel replacement", f.loc(loop), "the budget loop reads the chunk "
+                 "specification itself (see R-SENTINEL)")
+    else:
+        ew = elementwise(src)
+        ctx.require(ew is not None, f"{f.qualname}: cannot read the chunk sequence `{norm_text(src)[:60]}`")
+        elt, eb = ew
+        es = [v for v, s_ in eb.items() if isinstance(s_, ast.Name) and s_.id == p_shape]
+        ec = [v for v, s_ in eb.items() if isinstance(s_, ast.Name) and s_.id == p_chunks]
+        fresh = all(d.kind == "param" for p in (p_shape, p_chunks) for d in df.reaching(node, p))
+        ctx.require(len(es) == 1 and len(ec) == 1 and len(eb) == 2 and fresh,
+                    f"{f.qualname}: the sentinel-free chunks are not computed from zip({p_shape}, {p_chunks})")
+        ctx.require(isinstance(elt, ast.IfExp), f"{f.qualname}: `{norm_text(elt)[:50]}` is not a conditional replacement")
+        pol = _is_sentinel_test(elt.test, ec[0])
+        if pol is None and _is_sentinel_test(elt.test, es[0]) is not None:
+            ctx.violation("R-PAIRING", f"{f.qualname}:sentinel replacement", f.loc(elt),
+                          f"`{norm_text(elt)[:60]}` looks for the sentinel -1 in the shape, not in the chunk specification "
+                          "(shape and chunks are paired the wrong way round): -1 and 'auto' entries are replaced by full "
+                          "dimensions or passed on raw", key_detail="replace")
+        else:
+            ctx.require(pol is not None, f"{f.qualname}: `{norm_text(elt.test)[:50]}` is not a test for the -1 sentinel")
+            whole, keep = (elt.body, elt.orelse) if pol else (elt.orelse, elt.body)
+            good = dotted(whole) == es[0] and dotted(keep) == ec[0]
+            ctx.check(good, "R-PAIRING", f"{f.qualname}:sentinel replacement", f.loc(elt),
+                      "-1 becomes the dimension size, every other entry is kept",
+                      f"`{norm_text(elt)[:60]}`: the sentinel -1 must become the dimension size and every other entry "
+                      "('auto', an integer, a tuple) must be kept; here 'auto' entries are lost / -1 stays, so the chosen "
+                      "chunks are whole dimensions regardless of max_elements", key_detail="replace")
+    # the arms of the budget loop
+    chain = [s for s in loop.body if isinstance(s, ast.If)]
+    ctx.require(len(chain) == 1, f"{f.qualname}: budget loop is not one if-chain")
+    cur = chain[0]
+    n_arms = 0
+    while True:
+        t = cur.test
+        subj, kind = None, None
+        arm_body, rest = cur.body, cur.orelse
+        if isinstance(t, ast.Compare) and len(t.ops) == 1 and isinstance(t.ops[0], ast.NotEq) and cur.orelse:
+            arm_body, rest = cur.orelse, cur.body  # `if c != "auto": <others> else: <auto arm>`
+        if isinstance(t, ast.Compare) and len(t.ops) == 1 and isinstance(t.ops[0], (ast.Eq, ast.NotEq)):
+            for x, y in ((t.left, t.comparators[0]), (t.comparators[0], t.left)):
+                if isinstance(y, ast.Constant) and isinstance(y.value, str) and isinstance(x, ast.Name):
+                    subj, kind = x.id, "auto"
+        elif isinstance(t, ast.Call) and call_name(t) == "isinstance" and len(t.args) == 2 and isinstance(t.args[0], ast.Name):
+            subj, kind = t.args[0].id, dotted(t.args[1])
+        ctx.require(subj is not None, f"{f.qualname}: cannot read the arm `{norm_text(t)[:50]}` of the budget loop")
+        vals = [s.value.args[0] for s in arm_body if isinstance(s, ast.Expr) and _contribution(s)]
+        n_arms += 1
+        construct = f"{f.qualname}:budget arm {kind}"
+        if subj != cvar:
+            ctx.violation("R-PAIRING", construct, f.loc(cur), f"the arm tests `{subj}`, which is bound to "
+                          f"`{norm_text(b[subj])[:40] if subj in b else 'something else'}`, not to the chunk specification: sizes and chunks are paired the wrong "
+                          "way round, so every dimension is budgeted (and finally chunked) by its full size",
+                          key_detail="subject")
+        elif kind == "auto":
+            names = [v for v in vals if isinstance(v, ast.Name)]
+            consts = [v for v in vals if isinstance(v, ast.Constant)]
+            ctx.require(len(names) + len(consts) == len(vals) and len(vals) >= 2, f"{f.qualname}: cannot read the 'auto' arm")
+            good = len(svars) == 1 and all(v.id == svars[0] for v in names) and all(
+                isinstance(v.value, int) and v.value >= 1 for v in consts) and names and consts
+            ctx.check(bool(good), "R-PAIRING", construct, f.loc(cur),
+                      f"an 'auto' dimension starts at a positive constant and may grow up to its size `{svars[0] if svars else '?'}`",
+                      "an 'auto' dimension is not budgeted by (a positive constant, the size of that dimension)",
+                      key_detail="auto")
+        elif kind == "int":
+            good = all(isinstance(v, ast.Name) and v.id == cvar for v in vals) and vals
+            ctx.check(bool(good), "R-PAIRING", construct, f.loc(cur), "an integer chunk size is budgeted by itself",
+                      "an integer chunk size is not budgeted by its own value", key_detail="int")
+        else:
+            ctx.info("R-PAIRING", construct, f.loc(cur), "see R-TUPLEBOUND")
+        if len(rest) == 1 and isinstance(rest[0], ast.If):
+            cur = rest[0]
+            continue
+        break
+    ctx.require(n_arms >= 3, f"{f.qualname}: fewer than three arms in the budget loop")
+
+
+def _tuple_elems(e: ast.expr, nz) -> Optional[list[Poly]]:
+    if isinstance(e, ast.Tuple):
+        if any(isinstance(x, ast.Starred) for x in e.elts):
+            return None
+        return [nz.norm(x) for x in e.elts]
+    if isinstance(e, ast.BinOp) and isinstance(e.op, ast.Mult):
+        for seq in (e.left, e.right):
+            if isinstance(seq, ast.Tuple):
+                return _tuple_elems(seq, nz)
+        return None
+    if isinstance(e, ast.BinOp) and isinstance(e.op, ast.Add):
+        a, b = _tuple_elems(e.left, nz), _tuple_elems(e.right, nz)
+        return None if a is None or b is None else a + b
+    return None
+
+
+def _block_bound(ctx, repo) -> None:
+    f = repo.function(MOD, "fill_in_chunk_sizes")
+    df = DataFlow(f.node)
+    loops = [st for st in walk_no_nested(f.node) if isinstance(st, ast.For)]
+    ctx.require(len(loops) == 1, "fill_in_chunk_sizes: expected one loop")
+    b = bind_loop_target(loops[0].target, loops[0].iter)
+    p_shape, p_chunks = f.positional_params[:2]
+    svar = [n for n, src in b.items() if dotted(src) == p_shape]
+    cvar = [n for n, src in b.items() if dotted(src) == p_chunks]
+    ctx.require(len(svar) == 1 and len(cvar) == 1, "fill_in_chunk_sizes: loop does not pair shape with chunks")
+    s, c = svar[0], cvar[0]
+    nz = PlainDivNorm()
+    S, C = Poly.atom(s), Poly.atom(c)
+    REM = nz.norm(ast.parse(f"{s} % {c}", mode="eval").body)
+    n = 0
+    for ap in [st for st in walk_no_nested(loops[0]) if isinstance(st, ast.Expr) and _contribution(st)]:
+        arg = ap.value.args[0]
+        if isinstance(arg, ast.Name) and arg.id == c:
+            continue
+        exprs = [(arg, ap)]
+        if isinstance(arg, ast.Name):
+            exprs = []
+            for d in df.reaching(df.cfg.node_of(ap).idx, arg.id):
+                stn = df.cfg.nodes[d.node].ast
+                if isinstance(stn, ast.Assign) and isinstance(stn.value, ast.Name) and stn.value.id == c:
+                    continue  # the explicit tuple of blocks passed through (its sum is checked by the guard)
+                exprs.append((stn.value if isinstance(stn, (ast.Assign, ast.AugAssign)) else None, stn))
+        for e, stn in exprs:
+            els = _tuple_elems(e, nz) if e is not None else None
+            if els is None:
+                raise AnalysisError(f"fill_in_chunk_sizes: cannot read the blocks of `{norm_text(stn)[:60]}`")
+            sentinel = any(_is_sentinel_test(t, c) is not None and _is_sentinel_test(t, c) == br
+                           for t, br in enclosing_tests(f.node, stn))
+            for el in els:
+                n += 1
+                good = el == C or el == REM or (el == S and sentinel)
+                role = "chunk size" if el == C else "remainder" if el == REM else "whole dimension" if el == S else "other"
+                ctx.check(good, "R-BLOCKBOUND", f"{f.qualname}:block = {role}" + (" [sentinel arm]" if sentinel else ""), f.loc(stn),
+                          f"block of size {strip_key(el)}" + (" for the sentinel -1" if sentinel else f" <= {c}"),
+                          f"an integer chunk size `{c}` (not the sentinel -1) produces a block of size {strip_key(el)}: blocks "
+                          f"must be `{c}` or the remainder `{s} % {c}`; _auto_chunks hands its chosen sizes through here, so "
+                          "larger blocks exceed max_elements", key_detail="bound")
+    ctx.require(n >= 3, "fill_in_chunk_sizes: fewer than three block sizes examined")
+
+
+def _limit_integrity(ctx, repo) -> None:
+    f = repo.function(MOD, "_auto_chunks")
+    lim = "max_elements"
+    ctx.require(lim in f.params, "_auto_chunks lost its `max_elements` parameter")
+    df = DataFlow(f.node)
+    ident = {"int", "np.floor", "math.floor", "floor", "np.floor_divide"}
+    n = 0
+    for st in walk_no_nested(f.node):
+        if not (isinstance(st, ast.Assign) and any(dotted(t) == lim for t in st.targets)):
+            continue
+        n += 1
+        is_str = False
+        for t, br in enclosing_tests(f.node, st):
+            neg = False
+            while isinstance(t, ast.UnaryOp) and isinstance(t.op, ast.Not):
+                t, neg = t.operand, not neg
+            if isinstance(t, ast.Compare) and len(t.ops) == 1 and isinstance(t.ops[0], (ast.Eq, ast.NotEq)):
+                sides = [t.left, t.comparators[0]]
+                if any(dotted(x) == lim for x in sides) and any(isinstance(x, ast.Constant) and isinstance(x.value, str) for x in sides):
+                    if (isinstance(t.ops[0], ast.Eq) != neg) == br:
+                        is_str = True
+            elif isinstance(t, ast.Call) and call_name(t) == "isinstance" and len(t.args) == 2 and dotted(t.args[0]) == lim \
+                    and dotted(t.args[1]) == "str":
+                if (not neg) == br:
+                    is_str = True
+        ctx.check(is_str, "R-LIMIT", f"{f.qualname}:limit overwritten only when it is a string #{n}", f.loc(st),
+                  f"`{lim}` is recomputed only where it is known to be a string ('auto' / a byte size)",
+                  f"`{norm_text(st)[:70]}` can overwrite an integer `{lim}` given by the caller: the chunks are then sized "
+                  "for another limit and exceed the requested one", key_detail="kept")
+        nz = FlowNormalizer(df, df.cfg.node_of(st).idx, identity_calls=ident)
+        p = nz.norm(st.value)
+        ctx.require(len(p.terms) == 1, f"{f.qualname}: `{norm_text(st.value)[:60]}` is not a quotient bytes / itemsize")
+        (mono, coef), = p.terms.items()
+        its = [(a, e) for a, e in mono if a.endswith(".itemsize")]
+        mentioned = any(isinstance(x, ast.Attribute) and x.attr == "itemsize" for x in ast.walk(st.value))
+        ctx.require(len(its) == 1 or (not its and mentioned), f"{f.qualname}: no item size in `{norm_text(st.value)[:60]}`")
+        good = bool(its) and its[0][1] == -1 and coef == 1 and all(e == 1 for a, e in mono if not a.endswith(".itemsize"))
+        ctx.check(good, "R-LIMIT", f"{f.qualname}:elements = bytes / itemsize #{n}", f.loc(st),
+                  f"{lim} = {strip_key(p)}",
+                  f"{lim} = {strip_key(p)}: a byte budget is converted to elements by dividing by the item size once; "
+                  "anything else lets the chunks exceed the byte limit", key_detail="bytes")
+    ctx.require(n >= 1, f"{f.qualname}: no conversion of a byte budget to `{lim}` found")
+
+
+def _every_batch(ctx, repo) -> None:
+    gc = repo.function(MOD, "generate_chunks")
+    es = repo.function(MOD, "equal_sized_chunks")
+    loops = [st for st in walk_no_nested(gc.node) if isinstance(st, ast.For) and isinstance(st.iter, ast.Call)
+             and call_name(st.iter) == es.name]
+    ctx.require(len(loops) == 1 and isinstance(loops[0].target, ast.Name), "generate_chunks: loop over equal_sized_chunks(...) not found")
+    loop = loops[0]
+    from ..model import bind_args
+    b = bind_args(loop.iter, es)
+    p = gc.positional_params
+    q = es.positional_params
+    good = len(p) >= 2 and len(q) >= 2 and dotted(b.get(q[0])) == p[0] and dotted(b.get(q[1])) == p[1]
+    ctx.check(good, "R-RANGES", f"{gc.qualname}:splits its own num_items", gc.loc(loop.iter),
+              f"{es.name}({q[0]}={p[0]}, {q[1]}={p[1]})",
+              f"`{norm_text(loop.iter)[:70]}` does not split `{p[0]}` items into `{p[1]}` chunks: the yielded ranges do not "
+              f"end at start + {p[0]}", key_detail="args")
+    batch = loop.target.id
+    n = 0
+    for st in walk_no_nested(loop):
+        if not isinstance(st, (ast.Break, ast.Continue, ast.Return)):
+            continue
+        n += 1
+        tests = enclosing_tests(gc.node, st)
+        verdict = None if tests else False
+        for t, br in tests:
+            if isinstance(t, ast.Compare) and len(t.ops) == 1 and isinstance(t.ops[0], (ast.Eq, ast.NotEq)):
+                sides = [t.left, t.comparators[0]]
+                zero = any(isinstance(x, ast.Constant) and x.value == 0 and not isinstance(x.value, bool) for x in sides)
+                var = [dotted(x) for x in sides if dotted(x) in (p[0], batch)]
+                if zero and var:
+                    v = (isinstance(t.ops[0], ast.Eq) == br)
+                    verdict = v if verdict is None else (verdict or v)
+        ctx.require(verdict is not None, f"{gc.qualname}: cannot read the guard of `{norm_text(st)}` inside the loop")
+        ctx.check(verdict, "R-RANGES", f"{gc.qualname}:every batch is yielded #{n}", gc.loc(st),
+                  f"`{norm_text(st)}` only where nothing is left to yield ({p[0]} == 0 / an empty batch)",
+                  f"`{norm_text(st)}` skips the yield for a non-empty batch: the yielded ranges no longer cover "
+                  f"[start, start + {p[0]})", key_detail="skip")
+    if n == 0:
+        ctx.ok("R-RANGES", f"{gc.qualname}:every batch is yielded", gc.loc(loop), "no break / continue / return in the loop")
+
+
+def _shape_argument(ctx, repo) -> None:
+    vc = repo.function(MOD, "validate_chunks")
+    v_shape = vc.positional_params[0]
+    df = DataFlow(vc.node)
+    n = 0
+    for c in [c for c in walk_no_nested(vc.node) if isinstance(c, ast.Call)]:
+        callee = call_name(c)
+        if callee not in ("_auto_chunks", "fill_in_chunk_sizes", vc.name):
+            continue
+        g = repo.function(MOD, callee)
+        from ..model import bind_args
+        b = bind_args(c, g)
+        a = b.get(g.positional_params[0])
+        n += 1
+        ctx.check(isinstance(a, ast.Name) and a.id == v_shape, "R-LENGUARD", f"{vc.qualname}:{callee} gets the shape #{n}",
+                  vc.loc(c), f"{callee}({g.positional_params[0]}={v_shape}, ...)",
+                  f"`{norm_text(c)[:70]}` passes `{norm_text(a)[:30] if a is not None else '?'}` as the shape", key_detail="shape-arg")
+    ctx.require(n >= 3, f"{vc.qualname}: delegations not found")
+
+
+def run(ctx) -> None:  # noqa: F811
+    ctx.rule("R-PERDIM", "fill_in_chunk_sizes, and the budget and assembly loops of _auto_chunks, add exactly one entry per "
+             "dimension to every sequence they build, on every path of an iteration that does not raise (counting "
+             "appends / `+= (x,)` along the CFG of the loop body). The sum guard pairs shape and chunks with zip(), which "
+             "truncates silently, so a missing entry yields chunks that do not cover every dimension")
+    ctx.rule("R-LENGUARD", "validate_chunks executes check_chunks_match_shape_length(shape, chunks) on its own unmodified "
+             "arguments before every return, that function raises exactly when chunks is a tuple whose length differs "
+             "from len(shape), and the helpers it delegates to receive the caller's shape")
+    ctx.rule("R-PAIRING", "_auto_chunks: the sentinel-free copy of the chunk specification is `size if chunk is the "
+             "sentinel else chunk` over zip(shape, chunks); the budget loop dispatches on the chunk entry (not on the "
+             "size), budgets an 'auto' dimension by (positive constant, size of the dimension) and an integer by itself")
+    ctx.rule("R-BLOCKBOUND", "fill_in_chunk_sizes: for an integer chunk size c every produced block is c or s % c; the whole "
+             "dimension (s,) is produced only under a test that identifies the sentinel -1")
+    ctx.rule("R-LIMIT", "_auto_chunks: max_elements is reassigned only on branches where it is known to be a string, and "
+             "the new value is (bytes) / itemsize — an integer limit reaches the growth loop unchanged")
+    _per_dimension(ctx, ctx.repo)
+    _length_guard(ctx, ctx.repo)
+    _shape_argument(ctx, ctx.repo)
+    _pairing(ctx, ctx.repo)
+    _block_bound(ctx, ctx.repo)
+    _limit_integrity(ctx, ctx.repo)
+    _every_batch(ctx, ctx.repo)
+    _inner_run_c18_sweep(ctx)
